@@ -288,6 +288,7 @@ impl Check for Identity {
         let sv = |ts: &std::vec::Vec<u32>| Vec::from_iter(e, ts.iter().cloned());
         let valid_ts = |ts: &std::vec::Vec<u32>, topics: &BTreeSet<u32>| !ts.is_empty() && ts.iter().all(|t| topics.contains(t));
         for (i_step, s) in steps.iter().enumerate() {
+            let mut parked: Option<Violation> = None;
             let mut outcome: Option<(&str, bool, bool)> = None;
             match s {
                 Step::AddTopic { t } => { if rc.try_add_topic(t).is_ok() { m.topics.insert(*t); } }
@@ -378,7 +379,7 @@ impl Check for Identity {
                     if g != x {
                         let orphan: std::vec::Vec<u32> = m.topics.iter().filter(|t| !m.trusted.values().any(|ts| ts.contains(t))).cloned().collect();
                         let disc = if g && !orphan.is_empty() { "topic-without-issuer" } else if g { "accepted" } else { "rejected" };
-                        return Err(violation("verify.iff_valid_claims_of_trusted_issuers", disc, i_step, format!("verify_identity(investor {inv}) = {g}, model {x}; required topics {:?}, topics without a trusted issuer {orphan:?}, trusted {:?}, held {:?}, keys {:?}, now {}", m.topics, m.trusted, m.held.keys().collect::<std::vec::Vec<_>>(), m.keys, m.now)));
+                        self.clause(st, &mut parked, violation("verify.iff_valid_claims_of_trusted_issuers", disc, i_step, format!("verify_identity(investor {inv}) = {g}, model {x}; required topics {:?}, topics without a trusted issuer {orphan:?}, trusted {:?}, held {:?}, keys {:?}, now {}", m.topics, m.trusted, m.held.keys().collect::<std::vec::Vec<_>>(), m.keys, m.now)))?;
                     }
                 }
             }
@@ -424,10 +425,13 @@ impl Check for Identity {
                         let real = icl.try_key_allowed(&pk(key), &t);
                         let want = m.keys.contains(&(ix, key, t));
                         if real != Ok(Ok(want)) {
-                            return Err(violation("issuer.key_allowed_eq_model", "is_key_allowed_for_topic", i_step, format!("issuer {ix} key {key} topic {t}: {real:?}, model {want} after {s:?}; keys {:?}", m.keys)));
+                            self.clause(st, &mut parked, violation("issuer.key_allowed_eq_model", "is_key_allowed_for_topic", i_step, format!("issuer {ix} key {key} topic {t}: {real:?}, model {want} after {s:?}; keys {:?}", m.keys)))?;
                         }
                     }
                 }
+            }
+            if let Some(v) = parked.take() {
+                return Err(v);
             }
             st.state(&(m.topics.clone(), m.trusted.clone(), m.held.len(), m.keys.len()));
         }
